@@ -174,8 +174,10 @@ func (w *world) snap() snapshot {
 				s[clITs+"|"+itName+" .Capacity"] = hashStr(renderValue(it.Elem().FieldByName("Capacity")))
 				s[clITs+"|"+itName+" .Overhead"] = hashStr(renderValue(it.Elem().FieldByName("Overhead")))
 				for k := 0; k < o.Len(); k++ {
-					s[fmt.Sprintf("%s|%s .Offerings[%d] overrides", clITs, itName, k)] = hashStr(
-						renderValue(o.Index(k).Elem().FieldByName("CapacityOverride")) + renderValue(o.Index(k).Elem().FieldByName("OverheadOverride")))
+					// every field of the offering: Requirements, Price, Available, ReservationCapacity, the override maps, flags
+					s[fmt.Sprintf("%s|%s .Offerings[%d] (all fields)", clITs, itName, k)] = hashStr(renderValue(o.Index(k).Elem()))
+					s[fmt.Sprintf("%s|%s .Offerings[%d] Available/ReservationCapacity/Price", clITs, itName, k)] = fmt.Sprint(
+						o.Index(k).Elem().FieldByName("Available").Bool(), o.Index(k).Elem().FieldByName("ReservationCapacity").Int(), o.Index(k).Elem().FieldByName("Price").Float())
 				}
 				cache := access(it.Elem().FieldByName("allocatableOfferings"))
 				if cache.Len() == 0 {
